@@ -760,6 +760,7 @@ Definition gen_step_root (id : nat) (root : param) (o : op) : param * out :=
       | Raise e => (root, ORaise e)
       | Val _ => out_of (gen_update_at pp (ctor_in_parent id s) root) (fun _ => ONone)
       end
+  | ONew _ | OFree _ _ | OAttach _ _ => (root, OOutside)      (* operations on the forest: see gen_step *)
   end.
 
 Lemma gen_parent_eq : forall root pp, gen_parent root pp = py_parent root pp.
@@ -815,7 +816,7 @@ Qed.
 
 Theorem gen_step_root_eq : forall id root o, gen_step_root id root o = step_root_lit repaired id root o.
 Proof.
-  intros id root o. destruct o as [path v | pp s | pp s | path | path | path v | path | src dst | path];
+  intros id root o. destruct o as [path v | pp s | pp s | path | path | path v | path | src dst | path | s | i o' | i dst];
     unfold gen_step_root, step_root_lit; cbn [repaired q_model_set_attr q_register_first].
   - (* OSet *)
     rewrite (gen_InputParameterMap_get__upd_eq (set_value repaired v)) by (intro x; apply gen_dispatch_set_value_eq).
@@ -854,17 +855,42 @@ Proof.
       unfold mlift, mres_of; destruct (map_add p par); reflexivity.
   - (* OInspect *)
     rewrite gen_InputParameterMap_get_eq. reflexivity.
+  - reflexivity.
+  - reflexivity.
+  - reflexivity.
 Qed.
 
-Definition gen_step (st : state) (o : op) : state * out :=
-  let '(root', r) := gen_step_root (st_next st) (st_root st) o in
-  (mkState root' (S (st_next st)), r).
+(* Cls(...) without parent, through the generated constructor *)
+Definition gen_ctor_free (id : nat) (s : pspec) : res param :=
+  match gen_construct id s None with MOk _ p => Val p | MExn e _ => Raise e end.
+
+(* par = T | T.get(dst); par.add(t), through the generated get and add *)
+Definition gen_attach (dst : option string) (t T : param) : res param :=
+  match gen_update_at dst (gen_call_add t) T with MOk T' _ => Val T' | MExn e _ => Raise e end.
+
+Definition gen_step : state -> op -> state * out := step_with gen_step_root gen_ctor_free gen_attach.
 
 Fixpoint gen_run (st : state) (ops : list op) : state :=
   match ops with [] => st | o :: r => gen_run (fst (gen_step st o)) r end.
 
+Lemma gen_ctor_free_eq : forall id s, gen_ctor_free id s = ctor_free repaired id s.
+Proof.
+  intros. unfold gen_ctor_free, ctor_free. rewrite gen_construct_eq. unfold model_ctor.
+  destruct (ctor_checks repaired s None); reflexivity.
+Qed.
+
+Lemma gen_attach_eq : forall dst t T, gen_attach dst t T = attach_lit dst t T.
+Proof.
+  intros. unfold gen_attach, attach_lit.
+  rewrite (gen_update_at_eq (map_add t)) by (intro x; apply gen_call_add_eq).
+  unfold mres_of. destruct (py_modify_at dst (map_add t) T); reflexivity.
+Qed.
+
 Theorem gen_step_eq : forall st o, gen_step st o = step repaired st o.
-Proof. intros. unfold gen_step, step. rewrite gen_step_root_eq. reflexivity. Qed.
+Proof.
+  intros. unfold gen_step, step. apply step_with_ext;
+    [intros; apply gen_step_root_eq | intros; apply gen_ctor_free_eq | intros; apply gen_attach_eq].
+Qed.
 
 Theorem gen_run_eq : forall ops st, gen_run st ops = run repaired st ops.
 Proof.
@@ -914,15 +940,16 @@ Qed.
 (* ====================================================================== *)
 (* The main theorems, restated over the generated definitions               *)
 (* ====================================================================== *)
-Theorem gen_value_always_valid : forall ops p, In p (nodes (st_root (gen_run init ops))) -> leaf_ok p.
+Theorem gen_value_always_valid : forall ops p, In p (all_nodes (gen_run init ops)) -> leaf_ok p.
 Proof. intros ops p. rewrite gen_run_eq. apply value_always_valid. Qed.
 
 Theorem gen_rejected_unchanged : forall st o e,
-  snd (gen_step st o) = ORaise e -> st_root (fst (gen_step st o)) = st_root st.
+  snd (gen_step st o) = ORaise e ->
+  st_root (fst (gen_step st o)) = st_root st /\ st_free (fst (gen_step st o)) = st_free st.
 Proof. intros st o e. rewrite gen_step_eq. apply rejected_unchanged. Qed.
 
 Theorem gen_read_only_value_is_default : forall ops h c d v,
-  In (Leaf h true c d v) (nodes (st_root (gen_run init ops))) -> v = d.
+  In (Leaf h true c d v) (all_nodes (gen_run init ops)) -> v = d.
 Proof. intros ops h c d v. rewrite gen_run_eq. apply read_only_value_is_default. Qed.
 
 (* the generated set_value of the object's class accepts exactly the valid values of a writable parameter,
